@@ -57,9 +57,9 @@ def render(r, items, sing, plur, repeat_kw=True):
             mid = r.choice(THRU)
             if repeat_kw and r.random() < 0.15:
                 mid = mid.rstrip() + ' ' + r.choice(sing) + ' ' if mid.strip() else mid
-            parts.append(f'{lead}{it[0]}{mid}{it[1]}')
+            parts.append(f'{lead}{H.numstr(r, it[0])}{mid}{H.numstr(r, it[1])}')
         else:
-            parts.append(f'{lead}{it}')
+            parts.append(f'{lead}{H.numstr(r, it)}')
     txt = kw + ' ' + parts[0]
     for p in parts[1:]:
         txt += r.choice(AND) + p
